@@ -467,7 +467,10 @@ PROPS["C20"] = dict(
                                                              Reqs="{1, 2}", HashMax=3, MaxAttempts=3, Results='{"ok", "err"}'),
                  quick={}, thorough=dict(Threads="{1, 2, 3}", PicksPerThread=2, HashMax=4),
                  invariants=["Inv_Balance", "Inv_Hash", "Inv_Retry"], coverage=False)],
-    families=[dict(family="stubs", trace_module="Trace_Stubs", random_quick=2000, random_thorough=40000, fixed=stubs_fixed, exports=[])],
+    families=[dict(family="stubs", trace_module="Trace_Stubs", random_quick=2000, random_thorough=40000, fixed=stubs_fixed, exports=[]),
+              # the same under a formatting subscriber at TRACE level: every log statement's arguments are evaluated
+              dict(family="stubs", trace_module="Trace_Stubs", random_quick=1000, random_thorough=10000, fixed=stubs_fixed, exports=[],
+                   opts={"sub": "fmt"}, tag="fmt")],
     relevant=lambda e: (e.get("cfg", {}).get("kind") == "retry" and len(e["cfg"].get("script", [])) > 1)
     or (e.get("cfg", {}).get("kind") in ("rr", "rri", "ch")),
 )
